@@ -1,3 +1,136 @@
 import Driver.Common
-/-! Model driver for C14 — not built yet. -/
-def main (_args : List String) : IO Unit := pure ()
+import Logrange.Model.TIndexLts
+/-! Model driver for C14 (tag index lock protocol). State: the LTS state `St` (protected maps + ghost tokens).
+
+Labels (actor `a`, source index `s` = creation order, tag-line id `t`; answers in brackets):
+* `reset`                                   [ok]
+* `goc a t create`                          [ok <s> | wait | notfound]      getOrCreateJournal / GetJournal, one loop iteration
+* `gt a s lock`                             [ok | wait | notfound]          GetJournalTags, one loop iteration
+* `rel a s`                                 [ok | panic | disabled]         Release
+* `lock a s`                                [true | false | disabled]       LockExclusively
+* `unlock a s`                              [ok | panic | disabled]         UnlockExclusively
+* `del a s`                                 [ok | notfound | wrongstate | disabled]   Delete
+* `vbegin a skipping noRelease t*`          [ok <n>]   first locked section of Visit; n = size of the snapshot
+* `vtry a s`                                [acq | gone | wait | disabled]  waiting flavour, per-item section
+* `vwait a`                                 [wait | nowait]   is some pending entry of a's waiting visit exclusively locked?
+* `vdrain a`                                [ok | live <s>]   the remaining pending entries are all gone (each `vtry` = gone)
+* `vcb a s cont`                            [ok | disabled]   the callback on s returns cont
+* `vend a`                                  [ok | disabled]   final locked section
+* `state`                                   [<s>:<readers>:<excl>|<s>:gone … holds=<n> panicked=<0|1>]
+Raw critical sections (no ghost, no protocol; for the misuse unit section):
+* `raw.rel s` [ok|absent|panic]  `raw.lock s` [true|false]  `raw.unlock s` [ok|absent|panic]  `raw.del s` [ok|notfound|wrongstate]
+  `raw.acq s` [ok|notfound|wait]
+-/
+open Logrange.TIndexLts Driver
+
+def b01 (s : String) : Bool := s == "1"
+
+def stateStr (st : St) : String :=
+  let parts := (List.range st.c.next).map (fun s =>
+    match st.c.parts s with
+    | none => s!"{s}:gone"
+    | some p => s!"{s}:{p.readers}:{if p.exclusive then 1 else 0}")
+  " ".intercalate (parts ++ [s!"holds={st.c.holds.length}", s!"panicked={if st.panicked then 1 else 0}"])
+
+def apply (st : St) (l : Lbl) (ok : St → String) : St × String :=
+  match step st l with
+  | none => (st, "disabled")
+  | some st' => (st', ok st')
+
+def setParts (st : St) (parts : Nat → Option Part) : St := { st with c := { st.c with parts := parts } }
+
+def stepLine (st : St) (toks : List String) : St × String :=
+  match toks with
+  | ["reset"] => (init, "ok")
+  | ["state"] => (st, stateStr st)
+  | ["goc", a, t, cr] =>
+    let a := a.toNat!; let t := t.toNat!
+    (match findTags st.c.parts t st.c.next with
+     | some s =>
+       (match st.c.parts s with
+        | some p => if p.exclusive then apply st (.getOrCreate a t (b01 cr)) (fun _ => "wait")
+                    else apply st (.getOrCreate a t (b01 cr)) (fun _ => s!"ok {s}")
+        | none => (st, "bad-model-state"))
+     | none =>
+       if b01 cr then apply st (.getOrCreate a t true) (fun _ => s!"ok {st.c.next}")
+       else apply st (.getOrCreate a t false) (fun _ => "notfound"))
+  | ["gt", a, s, lk] =>
+    let a := a.toNat!; let s := s.toNat!
+    (match st.c.parts s with
+     | none => apply st (.getTags a s (b01 lk)) (fun _ => "notfound")
+     | some p => apply st (.getTags a s (b01 lk)) (fun _ => if p.exclusive then "wait" else "ok"))
+  | ["rel", a, s] =>
+    apply st (.release a.toNat! s.toNat!) (fun st' => if st'.panicked && !st.panicked then "panic" else "ok")
+  | ["lock", a, s] =>
+    let s := s.toNat!
+    apply st (.lockX a.toNat! s) (fun st' =>
+      match st.c.parts s, st'.c.parts s with
+      | some p, some p' => if !p.exclusive && p'.exclusive then "true" else "false"
+      | _, _ => "false")
+  | ["unlock", a, s] =>
+    apply st (.unlockX a.toNat! s.toNat!) (fun st' => if st'.panicked && !st.panicked then "panic" else "ok")
+  | ["del", a, s] =>
+    let s := s.toNat!
+    apply st (.delete a.toNat! s) (fun st' =>
+      match st.c.parts s, st'.c.parts s with
+      | none, _ => "notfound"
+      | some _, none => "ok"
+      | some _, some _ => "wrongstate")
+  | "vbegin" :: a :: sk :: nr :: sel =>
+    let a := a.toNat!
+    apply st (.visitBegin a (sel.map String.toNat!) (b01 sk) (b01 nr)) (fun st' =>
+      match st'.vis a with
+      | some v => s!"ok {v.pending.length}"
+      | none => "ok ?")
+  | ["vtry", a, s] =>
+    let a := a.toNat!; let s := s.toNat!
+    apply st (.visitTry a s) (fun st' =>
+      match st.c.parts s with
+      | none => "gone"
+      | some p => if p.exclusive then "wait" else
+        match st'.vis a with
+        | some v => if v.cur == some s then "acq" else "bad"
+        | none => "bad")
+  | ["vwait", a] =>
+    (match st.vis a.toNat! with
+     | some v =>
+       if !v.skipping && !v.aborted && v.cur.isNone &&
+          v.pending.any (fun s => match st.c.parts s with | some p => p.exclusive | none => false)
+       then (st, "wait") else (st, "nowait")
+     | none => (st, "nowait"))
+  | ["vdrain", a] =>
+    let a := a.toNat!
+    (match st.vis a with
+     | some v =>
+       (match v.pending.find? (fun s => (st.c.parts s).isSome) with
+        | some s => (st, s!"live {s}")
+        | none => (v.pending.foldl (fun st s => (step st (.visitTry a s)).getD st) st, "ok"))
+     | none => (st, "disabled"))
+  | ["vcb", a, s, cont] => apply st (.visitCb a.toNat! s.toNat! (b01 cont)) (fun _ => "ok")
+  | ["vend", a] => apply st (.visitEnd a.toNat!) (fun _ => "ok")
+  | ["raw.rel", s] =>
+    (match relRaw st.c.parts s.toNat! with
+     | (parts', .ok) => (setParts st parts', "ok")
+     | (_, .absent) => (st, "absent")
+     | (_, _) => (st, "panic"))
+  | ["raw.lock", s] =>
+    let r := lockRaw st.c.parts s.toNat!
+    (setParts st r.1, if r.2 then "true" else "false")
+  | ["raw.unlock", s] =>
+    (match unlockRaw st.c.parts s.toNat! with
+     | (parts', .ok) => (setParts st parts', "ok")
+     | (_, .absent) => (st, "absent")
+     | (_, .panic) => (st, "panic"))
+  | ["raw.del", s] =>
+    (match deleteRaw st.c.parts s.toNat! with
+     | (parts', .ok) => (setParts st parts', "ok")
+     | (_, .notFound) => (st, "notfound")
+     | (_, .wrongState) => (st, "wrongstate"))
+  | ["raw.acq", s] =>
+    let s := s.toNat!
+    (match st.c.parts s with
+     | none => (st, "notfound")
+     | some p => if p.exclusive then (st, "wait") else (setParts st (incDesc st.c.parts s p), "ok"))
+  | _ => (st, "bad-op")
+
+def main (args : List String) : IO Unit := Driver.run stepLine init args
